@@ -174,7 +174,7 @@ ReqOutcomes(p) ==
                O(0, <<SetIn("REQ_FINALIZE"), Ret("OK")>>)}
     [] p.in_state = "REQ_HEADERS" ->
          IF closed THEN
-            {O(0, <<Set("in_buf", FALSE), Tp("req_headers_closed", i), SetRp(i, TRAILER), Cb("request_trailer", i, "prop"), RecvFin("q"), SetIn("REQ_FINALIZE"), Ret("OK")>>),
+            {O(0, <<Set("in_buf", FALSE), Tp("req_headers_closed", i), SetRp(i, TRAILER), RecvFin("q"), Cb("request_trailer", i, "prop"), SetIn("REQ_FINALIZE"), Ret("OK")>>),
              O(0, <<Ret("ERROR")>>)}
          ELSE {O(avail, <<Set("in_buf", p.in_buf \/ avail > 0), Ret("DATA_BUFFER")>>)}
               \cup {O(u, <<Ret("ERROR")>>) : u \in U(1, avail)}
@@ -182,7 +182,7 @@ ReqOutcomes(p) ==
                     THEN {O(u, <<Set("in_buf", FALSE), SetTx(i, "rc", c), SetTx(i, "qdec", qd), RecvFin("q"), Cb("request_headers", i, "prop"),
                                  SetIn("REQ_CONNECT_CHECK"), Ret("OK")>>) : u \in U(1, avail), c \in ReqCodings,
                                                                            qd \in (IF ReqDecompPossible THEN {"none", "active"} ELSE {"none"})}
-                    ELSE {O(u, <<Set("in_buf", FALSE), Cb("request_trailer", i, "prop"), RecvFin("q"), SetIn("REQ_FINALIZE"), Ret("OK")>>) : u \in U(1, avail)})
+                    ELSE {O(u, <<Set("in_buf", FALSE), RecvFin("q"), Cb("request_trailer", i, "prop"), SetIn("REQ_FINALIZE"), Ret("OK")>>) : u \in U(1, avail)})    \* raw data first, as on the response side (since the D5 fix)
     [] p.in_state = "REQ_CONNECT_CHECK" ->
          IF p.txs[i].m = "CONNECT"
          THEN {O(0, <<SetIn("REQ_CONNECT_WAIT_RESPONSE"), SetIst("DATA_OTHER"), Ret("DATA_OTHER")>>)}
